@@ -417,7 +417,9 @@ def _file_of(e: Event) -> Term | None:
 
 
 def _readable(f: Formula) -> Formula:
-    return f
+    """The guard as shown in messages: without the state of the work list and the case distinctions of the name computation."""
+    drop = {a: True for a in atoms_of(f) if a not in ("ISDIR", "EXCL", "PY") and (a.startswith("bool(<") or "relative_to" in a or ".name" in a)}
+    return simplify(substitute(f, drop)) if drop else f
 
 
 def _loop_text(loop) -> str:
